@@ -98,6 +98,14 @@ func WithDeadline(p context.Context, t time.Time) (context.Context, context.Canc
 	return c, c.cancelFunc()
 }
 
+// Expire makes the deadline of a context created through WithDeadline/WithTimeout pass now: the
+// context ends with context.DeadlineExceeded. For harness events ("the deadline is reached here").
+func Expire(ctx context.Context) {
+	if v, ok := ctx.Value(ctxKey{}).(*vctx); ok {
+		v.cancel(context.DeadlineExceeded)
+	}
+}
+
 // NotifyContext stands in for signal.NotifyContext: Sched.Interrupt delivers the signal.
 func NotifyContext(p context.Context, s ...os.Signal) (context.Context, context.CancelFunc) {
 	if S == nil {
